@@ -153,6 +153,10 @@ Fixpoint rel_loop (fuel : nat) (simFrom simTo result : str) : str :=
       end
   end.
 
+(* "../" repeated; the number of '/' in a text *)
+Fixpoint ups (m : nat) : str := match m with O => [] | S k => UP ++ ups k end.
+Definition count_slash (s : str) : nat := length (filter is_slash s).
+
 Definition getRelativePath (from to : str) : str :=
   let simFrom := simplifyPath from in
   let simTo := simplifyPath to in
@@ -161,4 +165,9 @@ Definition getRelativePath (from to : str) : str :=
     (* repaired (02/03): "" (current directory) and "/" (root) get no further separator *)
     let sf := if nonempty simFrom && negb (str_eqb simFrom [47]) then simFrom ++ [47] else simFrom in
     if prefix_eqb sf simTo then skipn (length sf) simTo
-    else rel_loop (S (length sf)) sf simTo UP.
+    else
+      (* repaired (fixes/C19/11): `to` is a directory above `from` - one "../" for every component below it
+         (the loop stepped over `to` and came back by its last name: wrong when that name is "..") *)
+      let st := if nonempty simTo && negb (str_eqb simTo [47]) then simTo ++ [47] else simTo in
+      if prefix_eqb st sf then ups (count_slash (skipn (length st) sf))
+      else rel_loop (S (length sf)) sf simTo UP.
